@@ -4,6 +4,7 @@ R11.1 spans index the user's text: span-producing parsers are handed the caller'
 R11.2 flag plumbing: header key <-> LexFlags field <-> default <-> RegexBuilder setter <-> builder setter agree by name
 R11.4 no integer `as` cast in the library crates narrows (or changes signedness): numeric settings (size_limit, dfa_size_limit,
       nest_limit) travel header(u64) <-> field(usize/u32); a lossy cast puts a value in force that was not the one given
+R11.7 both arms of parse_start_states (with / without a `<state>` prefix) return regex text that went through `unescape`
 R11.6 the span recorded for a piece X = line[A..] of a rule line starts at (offset of the line) + A, on every path (A10)
 R11.5 one definition of white space in the lex parser: every trim_*_matches uses `matches_whitespace` (or a literal), and no
       pattern-less trim()/is_whitespace()/split_whitespace() (Unicode White_Space, a different set) is called there
@@ -431,8 +432,49 @@ def r116(facts, res):
     res.floor(R, 'span constructions from a piece of the rule line', n, 2)
 
 
+def r117(facts, res):
+    """parse_start_states splits `<states>regex` from `regex`.  Lex-level escape rewriting (`unescape`) is a property of the regex
+    text, not of whether a start-state prefix precedes it: every successful return hands back regex text that went through the
+    same rewriting (sibling agreement of the two arms)."""
+    R = 'R11.7'
+    from lrstep import has_call
+    bs = [b for b in facts.lib_bodies(['lrlex']) if b.name == 'parse_start_states' and b.path.startswith('lrlex::parser::') and b.kind != 'closure']
+    if len(bs) != 1:
+        res.lost(R, 'lrlex parse_start_states not found')
+        return
+    b = bs[0]
+    ps = [p for p in Walker(b, facts, max_paths=1024).run(0) if p.end[0] == 'return']
+    oks = []
+    for p in ps:
+        ret = p.end[1]
+        v = None
+        for x in subterms(ret):
+            if isinstance(x, tuple) and x and x[0] == 'variant' and x[3] == 'Ok':
+                v = x
+                break
+        if v is None:
+            continue
+        prefixed = any(isinstance(c, tuple) and has_call(c, 'starts_with') and val == 1 for c, val in p.conds) or \
+            any(isinstance(c, tuple) and has_call(c, 'find') for c, val in p.conds)
+        oks.append((p, has_call(v, 'unescape'), prefixed))
+    if len(oks) < 2:
+        res.lost(R, 'expected successful returns with and without a start-state prefix in parse_start_states, found %d' % len(oks))
+        return
+    un = [x for x in oks if x[1]]
+    no = [x for x in oks if not x[1]]
+    if un and no:
+        res.bad(R, 'unescape-both-arms', loc_of(b), '%d successful return(s) hand back the regex text after lex-level escape rewriting (unescape), %d hand it back as written (%s): '
+                'the same regex means different things with and without a `<state>` prefix' % (len(un), len(no), 'the arm with a start-state prefix' if any(x[2] for x in no) else 'the arm without a prefix'),
+                {'function': b.path})
+    elif not un:
+        res.lost(R, 'no successful return of parse_start_states goes through unescape')
+    else:
+        res.ok(R, 'unescape-both-arms', loc_of(b), 'all %d successful returns hand back regex text that went through unescape' % len(un))
+
+
 def run(facts, res):
     r114(facts, res)
+    r117(facts, res)
     r116(facts, res)
     r115(facts, res)
     r113(facts, res)
